@@ -380,6 +380,15 @@ def run(ctx):
 
     # ---- R12.3
     try:
+        # the flags are independent switches: clap is not told to discard one of them when another is given (an override is symmetric and
+        # last-wins, so `--ignore-nothing --no-default-ignore` would parse as the second flag alone and normalise() would never see the first)
+        ovr = []
+        for g_ in ctx.facts.fns_matching(r"FilteringArgs as clap_builder::derive::Args>::augment_args(_for_update)?$"):
+            ctx.saw_fn(g_)
+            ovr += sorted({strip_generics(t.callee.def_ or "").split("::")[-1] for _, t in g_.calls() if strip_generics(t.callee.def_ or "").split("::")[-1] in ("overrides_with", "overrides_with_all")})
+        ctx.floor("R12.3", "derived clap argument tables of FilteringArgs", len(ctx.facts.fns_matching(r"FilteringArgs as clap_builder::derive::Args>::augment_args(_for_update)?$")), 2)
+        ctx.require(not ovr, "R12.3", "flags-not-overridden", "no filtering flag is declared to override another", detail=str(ovr),
+                    fail="a filtering flag is declared with %s: given together, one of the flags is silently discarded by the parser, so the mix no longer removes the sources each flag names" % ovr)
         nm = body_of(ctx, "R12.3", "watchexec_cli::args::filtering::FilteringArgs::normalise")
         ifs = [n for n in thir.find(thir.root(nm), "if") if pathx.if_parts(n)[0].lstrip("^").endswith("self.ignore_nothing")]
         ok = False
